@@ -149,6 +149,17 @@ def run(sc):
     except (ValueError, NotImplementedError, RuntimeError) as e:
       # a Python exception is a legitimate rejection, never a crash
       stats["skipped"]["op_raised_" + type(e).__name__] = stats["skipped"].get("op_raised_" + type(e).__name__, 0) + 1
+    except (ZeroDivisionError, IndexError, KeyError, TypeError, AttributeError, AssertionError, OverflowError) as e:
+      # make_data accepted this Data: a public op that then dies with an arithmetic / indexing / type error has not "rejected an
+      # invalid configuration", it has failed half-way through a step (same family as a crash, but survivable and replayable in-process)
+      import re
+      import traceback
+
+      where = [ln for ln in traceback.format_exc().splitlines() if "mujoco_warp/_src/" in ln]
+      site = re.sub(r".*/mujoco_warp/_src/", "", where[-1]).split(",")[0].strip('" ') if where else "?"
+      viols.append({"class": {"oracle": "op_fails_on_accepted_data", "exception": type(e).__name__, "op": o[0], "site": site},
+                    "detail": {"message": str(e)[:300], "caps": full, "op": o}})
+      break
     finally:
       seams.set_policy(None)
     bits_seen |= int(np.bitwise_or.reduce(D.overflow.numpy()))
